@@ -116,6 +116,12 @@ func buildOps() []hop {
 		ops = append(ops, hop{"suite " + n, suiteObs(n), shapeOfRef(rs).sig() + "|" + n})
 	}
 	ops = append(ops, hop{"suite malformed", suiteObs("OCRA-2:HOTP-SHA1-6:QN08"), "error"})
+	// many distinct parsable, unregistered suite strings: anything that remembers parsed suites gets churned
+	for k := 1; k <= 44; k++ {
+		n := fmt.Sprintf("OCRA-1:HOTP-SHA%d-%d:QN%s-T%dS", []int{1, 256, 512}[k%3], 4+k%7, []string{"08", "10"}[k%2], k)
+		rs, _ := ref.ParseSuite(n)
+		ops = append(ops, hop{fmt.Sprintf("suite-parse-%d", k), suiteObs(n), shapeOfRef(rs).sig() + "|" + n})
+	}
 	ops = append(ops, hop{"list-suites", func() (string, []string) { return sortedSuites(), nil }, sortedSuites()})
 	return ops
 }
